@@ -7,6 +7,7 @@ import Winter.Gen.FriOpts
 import Winter.Gen.ProofOpts
 import Winter.Gen.Degree
 import Winter.Gen.AirContext
+import Winter.Gen.TraceInfo
 import WinterProofs.Lemmas.GenTactic
 
 namespace C01G
@@ -284,5 +285,191 @@ theorem gen_glue (n : Nat) (o : Options) (e mw aw nr : Nat) (md ad : List Degree
   subst h
   unfold_gen Gen.AirContext
   exact ⟨rfl, rfl, rfl, rfl⟩
+
+/-! ## the constructors: `TraceInfo::new_multi_segment`, `AirContext::new_multi_segment`,
+    `AirContext::set_num_transition_exemptions` -/
+
+/-- ★ `TraceInfo::new_multi_segment` (regenerated from air/src/air/trace_info.rs): its assertions are the
+    model's `traceInfoAccepted` together with the metadata bound, for ALL arguments; the struct stores the
+    arguments -/
+theorem gen_trace_info_new (mw aw nr n : Nat) (mt : List Nat) :
+    Gen.TraceInfo.new_multi_segment_ok mw aw nr n mt =
+      (traceInfoAccepted mw aw nr n && decide (mt.length ≤ 65535)) ∧
+    Gen.TraceInfo.new_multi_segment mw aw nr n mt = (mw, aw, nr, n, mt) := by
+  unfold traceInfoAccepted
+  unfold_gen Gen.TraceInfo
+  refine ⟨?_, rfl⟩
+  simp only [isPow2_eq, gt_iff_lt, ge_iff_le]
+  rw [Bool.eq_iff_iff]
+  simp only [Bool.and_eq_true, Bool.or_eq_true, decide_eq_true_eq]
+  constructor <;> intro h <;> grind
+
+/-- the accessors of `TraceInfo` the context constructor reads -/
+theorem gen_trace_info_accessors (mw aw n : Nat) :
+    Gen.TraceInfo.length n = n ∧ Gen.TraceInfo.is_multi_segment aw = decide (0 < aw) ∧
+    Gen.TraceInfo.get_aux_segment_width aw = aw ∧ Gen.TraceInfo.width aw mw = mw + aw := by
+  unfold_gen Gen.TraceInfo
+  simp
+
+theorem ceLoop1_eq (ok : Degree → Bool) : ∀ (ds : List Degree) (h : Nat),
+    Gen.AirContext.new_multi_segment.for1 Degree.minBlowup ok ds h = (ds.map Degree.minBlowup).foldl max h := by
+  intro ds
+  induction ds with
+  | nil => intro h; simp [Gen.AirContext.new_multi_segment.for1]
+  | cons d t ih =>
+    intro h
+    rw [Gen.AirContext.new_multi_segment.for1]
+    unfold_gen Gen.AirContext
+    rw [ih]
+    simp only [List.map_cons, List.foldl_cons, gt_iff_lt]
+    congr 1
+    by_cases hc : h < d.minBlowup
+    · simp [hc]; omega
+    · simp [hc]; omega
+
+theorem ceLoop2_eq (ok : Degree → Bool) : ∀ (ds : List Degree) (h : Nat),
+    Gen.AirContext.new_multi_segment.for2 Degree.minBlowup ok ds h = (ds.map Degree.minBlowup).foldl max h := by
+  intro ds
+  induction ds with
+  | nil => intro h; simp [Gen.AirContext.new_multi_segment.for2]
+  | cons d t ih =>
+    intro h
+    rw [Gen.AirContext.new_multi_segment.for2]
+    unfold_gen Gen.AirContext
+    rw [ih]
+    simp only [List.map_cons, List.foldl_cons, gt_iff_lt]
+    congr 1
+    by_cases hc : h < d.minBlowup
+    · simp [hc]; omega
+    · simp [hc]; omega
+
+theorem ceLoop1_ok (ok : Degree → Bool) : ∀ (ds : List Degree) (h : Nat),
+    Gen.AirContext.new_multi_segment.for1_ok Degree.minBlowup ok ds h = true ↔ ∀ d ∈ ds, ok d = true := by
+  intro ds
+  induction ds with
+  | nil => intro h; simp [Gen.AirContext.new_multi_segment.for1_ok]
+  | cons d t ih =>
+    intro h
+    rw [Gen.AirContext.new_multi_segment.for1_ok]
+    unfold_gen Gen.AirContext
+    simp only [Bool.and_eq_true, decide_eq_true_eq, ih, List.mem_cons, forall_eq_or_imp]
+    grind
+
+theorem ceLoop2_ok (ok : Degree → Bool) : ∀ (ds : List Degree) (h : Nat),
+    Gen.AirContext.new_multi_segment.for2_ok Degree.minBlowup ok ds h = true ↔ ∀ d ∈ ds, ok d = true := by
+  intro ds
+  induction ds with
+  | nil => intro h; simp [Gen.AirContext.new_multi_segment.for2_ok]
+  | cons d t ih =>
+    intro h
+    rw [Gen.AirContext.new_multi_segment.for2_ok]
+    unfold_gen Gen.AirContext
+    simp only [Bool.and_eq_true, decide_eq_true_eq, ih, List.mem_cons, forall_eq_or_imp]
+    grind
+
+/-- ★ `AirContext::new_multi_segment` (regenerated; `min_blowup_factor` of the degrees as a function parameter,
+    instantiated with the model's `minBlowup`): the stored `ce_blowup_factor` is the model's `ceBlowup` of the
+    main AND the auxiliary degrees (the two maximum loops), the trace length and the LDE domain size are
+    `n` and `n · blowup`, for ALL arguments -/
+theorem gen_air_context_new_value (ok : Degree → Bool) (auxw : Nat) (multi : Bool) (n : Nat) (md ad : List Degree)
+    (nma naa : Nat) (ls : Bool) (li b : Nat) :
+    Gen.AirContext.new_multi_segment Degree.minBlowup ok auxw multi n md ad nma naa ls li b =
+      (ceBlowup (md ++ ad), n, n * b) := by
+  unfold ceBlowup
+  unfold_gen Gen.AirContext
+  rw [ceLoop1_eq, ceLoop2_eq, List.map_append, List.foldl_append]
+
+/-- ★ its assertions, exactly: at least one main degree and one main assertion; for a multi-segment trace at
+    least one auxiliary degree and assertion, otherwise none of either; a Lagrange kernel column must be the last
+    auxiliary column; every `min_blowup_factor` call succeeds; `blowup_factor ≥ ce_blowup_factor`; the LDE
+    domain size fits a `usize` -/
+theorem gen_air_context_new_ok_iff (ok : Degree → Bool) (auxw : Nat) (multi : Bool) (n : Nat) (md ad : List Degree)
+    (nma naa : Nat) (ls : Bool) (li b : Nat) :
+    Gen.AirContext.new_multi_segment_ok Degree.minBlowup ok auxw multi n md ad nma naa ls li b = true ↔
+      (md ≠ [] ∧ 0 < nma ∧ (multi = true → ad ≠ [] ∧ 0 < naa) ∧ (multi = false → ad = [] ∧ naa = 0) ∧
+        (ls = true → 1 ≤ auxw ∧ li = auxw - 1) ∧ (∀ d ∈ md ++ ad, ok d = true) ∧
+        ceBlowup (md ++ ad) ≤ b ∧ n * b < 18446744073709551616) := by
+  unfold ceBlowup
+  unfold_gen Gen.AirContext
+  simp only [Bool.and_eq_true, decide_eq_true_eq, ceLoop1_ok, ceLoop2_ok, ceLoop1_eq, ceLoop2_eq,
+    List.map_append, List.foldl_append, List.isEmpty_iff, List.mem_append, Bool.decide_eq_true, ge_iff_le,
+    gt_iff_lt]
+  cases multi <;> cases ls <;> simp <;> grind
+
+/-- ★ on everything the model's `glue` accepts the regenerated constructor's assertions hold (one assertion per
+    segment, no Lagrange column, LDE domain within `usize`), and the `ce_blowup_factor` it stores is `g.ceBlowup` -/
+theorem gen_air_context_new_of_glue (n : Nat) (o : Options) (e mw aw nr : Nat) (md ad : List Degree) (g : Glue)
+    (h : glue n o e mw aw nr md ad = .ok g) (hlde : n * o.blowup < 18446744073709551616) :
+    Gen.AirContext.new_multi_segment_ok Degree.minBlowup (fun _ => true) aw (Gen.TraceInfo.is_multi_segment aw) n
+      md ad 1 (if 0 < aw then 1 else 0) false 0 o.blowup = true ∧
+    (Gen.AirContext.new_multi_segment Degree.minBlowup (fun _ => true) aw (Gen.TraceInfo.is_multi_segment aw) n
+      md ad 1 (if 0 < aw then 1 else 0) false 0 o.blowup).1 = g.ceBlowup := by
+  rw [gen_air_context_new_value, gen_air_context_new_ok_iff, (gen_trace_info_accessors mw aw n).2.1]
+  unfold glue at h
+  split at h; · cases h
+  split at h; · cases h
+  split at h; · cases h
+  split at h; · cases h
+  rename_i hme
+  split at h; · cases h
+  rename_i hseg
+  simp only [] at h
+  split at h; · cases h
+  rename_i hce
+  split at h; · cases h
+  injection h with h
+  subst h
+  refine ⟨⟨?_, by omega, ?_, ?_, by simp, by simp, by omega, hlde⟩, rfl⟩
+  · intro hc; rw [hc] at hme; simp at hme
+  · intro hm
+    simp only [decide_eq_true_eq] at hm
+    have : aw ≠ 0 := by omega
+    constructor
+    · intro hc; rw [hc] at hseg; simp [this] at hseg
+    · simp [hm]
+  · intro hm
+    simp only [decide_eq_false_iff_not] at hm
+    have : aw = 0 := by omega
+    constructor
+    · cases had : ad with
+      | nil => rfl
+      | cons x t => rw [had] at hseg; simp [this] at hseg
+    · simp [this]
+
+theorem exLoop_ok (ok : Degree → Nat → Bool) (ced n e : Nat) : ∀ (ds : List Degree),
+    Gen.AirContext.set_num_transition_exemptions.for1_ok (fun d m => d.evalDegree m) ok ced n e ds = true ↔
+      ∀ d ∈ ds, (ok d n = true ∧ 1 ≤ ced ∧ ced - 1 + n < 18446744073709551616 ∧
+        d.evalDegree n ≤ ced - 1 + n ∧ e ≤ ced - 1 + n - d.evalDegree n) := by
+  intro ds
+  induction ds with
+  | nil => simp [Gen.AirContext.set_num_transition_exemptions.for1_ok]
+  | cons d t ih =>
+    rw [Gen.AirContext.set_num_transition_exemptions.for1_ok]
+    unfold_gen Gen.AirContext
+    simp only [Bool.and_eq_true, decide_eq_true_eq, ih, List.mem_cons, forall_eq_or_imp]
+    grind
+
+/-- ★ `set_num_transition_exemptions` (regenerated; `get_evaluation_degree` as a function parameter): wherever
+    its own arithmetic cannot overflow (`ce_domain_size ≥ 1`, `ce_domain_size - 1 + trace_len` and
+    `trace_len / 2 + 1` within `usize`, every `get_evaluation_degree` call succeeding) its assertions — including
+    the checked subtraction `max_constraint_composition_degree + trace_len - eval_degree` — are exactly the
+    model's `exemptionsAccepted`: `0 < n ≤ trace_len/2 + 1` and `n ≤ ce_domain_size - 1 + trace_len - eval_degree`
+    for every main and auxiliary degree -/
+theorem gen_set_exemptions_ok (ok : Degree → Nat → Bool) (md ad : List Degree) (n ce old e : Nat)
+    (hok : ∀ d ∈ md ++ ad, ok d n = true) (hce : 1 ≤ n * ce)
+    (h1 : n * ce - 1 + n < 18446744073709551616) (h2 : n / 2 + 1 < 18446744073709551616) :
+    Gen.AirContext.set_num_transition_exemptions_ok (fun d m => d.evalDegree m) ok ad (n * ce) md old n e =
+      exemptionsAccepted (md ++ ad) n ce e := by
+  unfold exemptionsAccepted exemptionsBound
+  unfold_gen Gen.AirContext
+  rw [Bool.eq_iff_iff]
+  simp only [Bool.and_eq_true, decide_eq_true_eq, exLoop_ok, List.all_eq_true, gt_iff_lt]
+  constructor
+  · rintro ⟨⟨⟨⟨h0, _⟩, _⟩, hle⟩, hall⟩
+    exact ⟨⟨h0, hle⟩, fun d hd => (hall d hd).2.2.2.2⟩
+  · rintro ⟨⟨h0, hle⟩, hall⟩
+    refine ⟨⟨⟨⟨h0, by omega⟩, h2⟩, hle⟩, fun d hd => ⟨hok d hd, hce, h1, ?_, hall d hd⟩⟩
+    have := hall d hd
+    omega
 
 end C01G
